@@ -51,7 +51,7 @@ import (
 // query panel and later command results (L2/L3), their raw rows only diagnostically (L4).
 var verifDerivedTables = map[string]bool{
 	"gateway-services": true, "mesh-topology": true, "kind-service-names": true, "service-virtual-ips": true,
-	"free-virtual-ips": true, "session_checks": true, "usage": true, "peering-secret-uuids": true,
+	"free-virtual-ips": true, "session_checks": true, "usage": true,
 }
 
 func verifDerivedIndexKey(k string) bool {
